@@ -17,7 +17,9 @@ CHUNK = 50
 RULE = ("seeded histories of 2-10 requests on one client connection over a universe of 3 hosts x 2 ports x "
         "{no upstream proxy, proxy A, proxy B} (plain http), with addon rewrites of host/port at requestheaders/request "
         "and of server_conn.via at requestheaders, interleaved with connect failures, origin FIN/RST between and inside "
-        "exchanges, 'Connection: close' replies and addon attempts to re-point an open server connection; oracle: every "
+        "exchanges, 'Connection: close' replies and addon attempts to re-point an open server connection (inside flow "
+        "hooks and inside the server_connected connection hook, with server_connect as the not-yet-open control); "
+        "oracle: every "
         "request P reads on upstream pipe X (directly, or inside the CONNECT tunnel an upstream proxy opened) was recorded "
         "with destination == X's address/tunnel target and via == X's proxy at the time it was forwarded; nothing is "
         "written to a pipe after the origin closed it; assigning address/via on an open server connection raises. "
@@ -32,7 +34,8 @@ ASSUMPTIONS = ["requests are attributed to flows by the unique token in their pa
                "an origin's FIN is visible to the proxy at the same virtual instant (SimNet has no propagation delay); "
                "1 ms of slack is allowed before a write counts as 'after close'"]
 EXPECTED_PROBES = ["reused_connection", "new_connection_after_close", "via_tunnel", "rewritten_destination",
-                   "connect_failed", "poke_raised", "same_host_other_port"]
+                   "connect_failed", "poke_raised", "same_host_other_port", "poke_in_server_connected_raised",
+                   "poke_before_connect_allowed"]
 
 HOSTS = ["a.test", "b.test", "c.test"]
 PORTS = [80, 8080]
@@ -91,6 +94,13 @@ def generate(rng, tier):
     if r.random() < 0.2:
         faults.append({"conn": "server", "nth": r.choice([0, 1]), "kind": r.choice(["fin_time", "rst_time"]),
                        "t": r.choice([0.02, 0.6, 3.0])})
+    # an addon that tries to re-point the upstream connection from inside the CONNECTION hooks: in server_connected
+    # the socket is connected (must be refused); in server_connect nothing is connected yet (control: allowed)
+    rc = rng.at("c08-connpoke")
+    if rc.random() < 0.3:
+        for _ in range(rc.choice([1, 1, 2])):
+            policy.append({"hook": rc.choice(["server_connected", "server_connected", "server_connect"]),
+                           "nth": rc.choice([0, 0, 1, 2, "*"]), "latency": 0, "action": "poke_server_conn"})
     origin = {"kind": "h1", "replies": replies, "idle_close": r.choice([2.0, 60.0]), "connect": connect}
     return {"family": "http1-reuse", "modes": ["regular"], "eager": r.random() < 0.5,
             "options": {"connection_strategy": r.choice(["eager", "lazy"])},
@@ -188,6 +198,23 @@ def oracle(sc, obs):
         if was_open and not raised:
             v.append({"class": "open_connection_repointed", "key": {"attr": attr},
                       "msg": f"assigning server_conn.{attr} on an OPEN connection inside the {hook} hook did not raise"})
+    # the same attempt from inside the connection hooks.  "Open" is judged without looking at mitmproxy's own state
+    # flag: server_connected has fired for the connection (the proxy itself announces it as established) and a
+    # simulated socket to the place it connects to exists that the proxy has not closed.
+    for t, hook, attr, flag_open, raised, target in obs.policy.conn_poke_log:
+        sock_live = any(tuple(s.address) == target and s.opened_at <= t and (s.close_time is None or s.close_time > t)
+                        for s in obs.servers)
+        if hook == "server_connected" and sock_live:
+            if raised:
+                bump("poke_in_server_connected_raised")
+            else:
+                v.append({"class": "open_connection_repointed", "key": {"attr": attr, "hook": hook},
+                          "msg": f"assigning server.{attr} inside the server_connected hook (socket to {target} is "
+                                 f"connected; mitmproxy's state flag said open={flag_open}) did not raise"})
+        elif hook == "server_connect" and not sock_live:
+            bump("poke_before_connect")
+            if not raised:
+                bump("poke_before_connect_allowed")
     obs.forwarded = forwarded
     cv = H.crash_violations(sc, obs)
     if cv:
